@@ -350,7 +350,7 @@ class LargestRemainder:
         """
         # first, assign the non-remainder seats for those over the quota
         quota_elected = self._quota_evaluator.evaluate(
-            votes, n_seats, prev_gains
+            votes, n_seats, prev_gains, max_seats
         )
         quota_number = self.quota_function(
             sum(votes.values()), n_seats
